@@ -8,6 +8,7 @@ peer's publisher / handler future is cancelled in the section that handles CANCE
 Production stops: the library's four stream sources behind a real responder, CANCEL arriving in the same read as the request
 (before any producer task ran) or any number of loop iterations later: the source is not pulled again and nothing more
 is sent (model: C09_source_cancel_* over model/Publisher.v)."""
+import logging
 import random
 
 from harness import epcheck as E, endpoint as EP
@@ -115,6 +116,8 @@ def correspond(ctx, corr, model_ok):
         corr.evaluations += 1
     corr.oracle_failures.extend(routed_oracle())
     corr.count('routed responder (future / task) cancelled', 4)
+    corr.oracle_failures.extend(graphql_oracle())
+    corr.count('GraphQL subscription abandoned by its consumer', 2)
     from harness.props import c20
     corr.oracle_failures.extend(c20.disposal_oracle())
     corr.count('Rx clients: observer disposed at every moment (subscribing turn .. after the last element)', 78)
@@ -137,6 +140,7 @@ def search(ctx, budget):
         for case in source_cases(ctx, 60):
             found.extend(source_oracle(case, run_cancel_source(*case)))
         found.extend(routed_oracle())
+        found.extend(graphql_oracle())
         from harness.props import c20
         found.extend(c20.disposal_oracle())
     return found
@@ -150,6 +154,8 @@ def replay(obj):
     case = obj.get('case') or obj
     if 'routed_case' in case:
         return bool(routed_oracle())
+    if 'graphql_case' in case:
+        return bool(graphql_oracle())
     if 'rx_case' in case:
         from harness.props import c20
         return bool(c20.oracle(c20.run_case(case['rx_case'])))
@@ -372,4 +378,108 @@ def routed_oracle():
             r = run_routed_cancel(kind, lenreq)
             if not r['producer_cancelled'] or r['frames_on_cancelled_stream'] or not r['fast_answered'] or r['escaped']:
                 out.append({'what': 'routed-responder-not-cancelled', 'routed_case': [kind, lenreq], 'detail': repr(r)[:300]})
+    return out
+
+
+# ---------------------------------------------------------------------------------------------
+# the GraphQL wrapper (rsocket.graphql): a subscription is a request-stream; a consumer that stops iterating cancels it
+
+def run_graphql_break(stop_after):
+    import asyncio
+    from gql import Client, gql
+    from graphql import build_schema
+    from rsocket.extensions.mimetypes import WellKnownMimeTypes
+    from rsocket.frame import FrameType
+    from rsocket.graphql.rsocket_transport import RSocketTransport
+    from rsocket.graphql.server_helper import graphql_handler
+    from rsocket.helpers import single_transport_provider
+    from rsocket.routing.routing_request_handler import RoutingRequestHandler
+    from rsocket.rsocket_client import RSocketClient
+    from rsocket.rsocket_server import RSocketServer
+    from rsocket.transports.transport import Transport
+    state = {'produced': 0, 'stopped': False}
+    wire = []
+
+    class Pipe(Transport):
+        def __init__(self, name):
+            super().__init__()
+            self.name, self.inq, self.peer = name, asyncio.Queue(), None
+
+        async def send_frame(self, frame):
+            wire.append((self.name, frame.frame_type, frame.stream_id))
+            self.peer.inq.put_nowait(frame.serialize())
+            await asyncio.sleep(0)
+
+        async def next_frame_generator(self):
+            data = await self.inq.get()
+            if data is None:
+                return None
+            return self._frame_parser.receive_data(data, 0)
+
+        async def close(self):
+            self.inq.put_nowait(None)
+
+    def greetings(*args):
+        async def results():
+            try:
+                for i in range(100000):
+                    state['produced'] += 1
+                    yield {'greetings': {'message': 'Hello %d' % i}}
+                    await asyncio.sleep(0.002)
+            finally:
+                state['stopped'] = True
+        return results()
+
+    async def main():
+        schema = build_schema('type Query { greeting: Greeting }\ntype Subscription { greetings: Greeting }\ntype Greeting { message: String }')
+        schema.subscription_type.fields['greetings'].subscribe = greetings
+        a, b = Pipe('client'), Pipe('server')
+        a.peer, b.peer = b, a
+        server = RSocketServer(b, handler_factory=lambda: RoutingRequestHandler(graphql_handler(schema, 'graphql')))
+        client = RSocketClient(single_transport_provider(a), metadata_encoding=WellKnownMimeTypes.MESSAGE_RSOCKET_COMPOSITE_METADATA)
+        await client.connect()
+        g = Client(schema=schema, transport=RSocketTransport(client))
+        got = []
+        results = g.subscribe_async(document=gql('subscription { greetings {message} }'))
+        async for r in results:
+            got.append(r)
+            if len(got) == stop_after:
+                break
+        await results.aclose()
+        await asyncio.sleep(0.06)
+        p1 = state['produced']
+        await asyncio.sleep(0.06)
+        res = {'got': len(got), 'cancels': [sid for (n, ty, sid) in wire if n == 'client' and ty is FrameType.CANCEL],
+               'stopped': state['stopped'], 'still_producing': state['produced'] != p1,
+               'open': [sorted(server._stream_control._streams), sorted(client._stream_control._streams)]}
+        await client.close()
+        await server.close()
+        return res
+    return asyncio.run(main())
+
+
+def graphql_oracle():
+    out = []
+    try:
+        import gql      # noqa: F401  (optional dependency of the library; nothing to check without it)
+        import graphql  # noqa: F401
+    except ImportError:
+        return out
+    old = logging.root.manager.disable
+    logging.disable(logging.CRITICAL)
+    try:
+        for stop_after in (1, 3):
+            r = run_graphql_break(stop_after)
+            bad = []
+            if r['cancels'] != [1]:
+                bad.append('CANCEL frames sent: %s' % r['cancels'])
+            if not r['stopped'] or r['still_producing']:
+                bad.append('the source on the peer keeps producing')
+            if r['open'] != [[], []]:
+                bad.append('streams still registered (server, client): %s' % r['open'])
+            if bad:
+                out.append({'what': 'GraphQL subscription abandoned after %d results: %s' % (stop_after, '; '.join(bad)),
+                            'graphql_case': stop_after})
+    finally:
+        logging.disable(old)
     return out
